@@ -25,8 +25,10 @@ RULE = (
     "cases from one SplitMix64 stream: variant Dummy/Subproc (quick: fork + a few forkserver; thorough: fork, forkserver, "
     "spawn), n_envs 1..4 (widened: ..6), all nine observation-space kinds (box1, box2, image_hwc, image_chw, discrete, "
     "multidiscrete, multibinary, dict, tuple), five action-space kinds, per-environment scripts (styles mixed / length-1 / "
-    "never-ending / terminated+truncated / truncation-only / termination-only), four info-dict styles (plain, empty, rich, "
-    "preset = the sub-environment itself already sets 'TimeLimit.truncated' and 'terminal_observation'), histories of 4..26 "
+    "never-ending / terminated+truncated / truncation-only / termination-only), seven info-dict styles (plain, empty, rich, "
+    "preset = the sub-environment itself already sets 'TimeLimit.truncated' and 'terminal_observation'; seeded_only / "
+    "auto_only = reset info is {} for automatic resets and non-empty for seeded/explicit-with-options resets, and the "
+    "reverse; falsy = step infos full of falsy values 0, '', False, None, [], {} and reset infos alternating {} / all-falsy), histories of 4..26 "
     "operations mixing seed(int|None), set_options(None|dict|list|empty dicts), reset (also twice in a row and mid-episode) "
     "and step (step() or step_async()+step_wait()). non-trivial = history contains at least one automatic reset; "
     "distinct = distinct canonical case"
@@ -44,7 +46,7 @@ STREAMS = {
 
 JUNK_BASE = (1 << 20) - 1  # tag a 'preset' sub-environment stores under terminal_observation itself
 ACT_RANGE = {"discrete": 4, "box": 33, "box_sym": 17, "multidiscrete": 6, "multibinary": 8}
-INFO_STYLES = ["plain", "empty", "rich", "preset"]
+INFO_STYLES = ["plain", "empty", "rich", "preset", "seeded_only", "auto_only", "falsy"]
 
 
 def enc_action(k: int, act_kind: str):
@@ -98,6 +100,11 @@ def canon_val(v):
             return {"d": [[str(k), int(x)] for k, x in v.items()]}
         except Exception:  # noqa
             return {"?": repr(v)[:80]}
+    if isinstance(v, (list, tuple)):
+        try:
+            return {"l": [int(x) for x in v]}
+        except Exception:  # noqa
+            return {"?": repr(v)[:80]}
     return {"?": repr(v)[:80]}
 
 
@@ -119,8 +126,19 @@ class C01Env(ScriptedEnv):
         self.step_in_ep = 0
         self.needs_reset = False
         tag = make_tag(self.env_id, self.episode, 0)
-        if self.info_style == "empty":
+        st = self.info_style
+        given = seed is not None or bool(options)
+        if st == "empty":
             info = {}
+        elif st == "seeded_only":
+            # non-empty only for a seeded / explicit-with-options reset; `{}` for every automatic reset
+            info = {"seeded_with": seed, "options": options} if given else {}
+        elif st == "auto_only":
+            # the reverse: `{}` when something was delivered, non-empty for argument-less resets
+            info = {} if given else {"reset_tag": tag}
+        elif st == "falsy":
+            # alternates between `{}` and a dictionary whose values are all falsy
+            info = {} if self.episode % 2 else {"zero": 0, "blank": "", "no": False, "nil": None, "nolist": [], "nodict": {}}
         else:
             info = {"reset_tag": tag, "seed": seed, "options": options}
         cinfo = [[k, canon_val(v)] for k, v in info.items()]
@@ -143,6 +161,10 @@ class C01Env(ScriptedEnv):
                              "extra": {"a": self.n_steps}})
                 cinfo += [["note", {"s": f"s{self.n_steps}"}], ["flag", {"b": bool(self.n_steps % 2)}], ["nil", None],
                           ["extra", {"d": [["a", self.n_steps]]}]]
+            elif st == "falsy":
+                info = {"zero": 0, "blank": "", "no": False, "nil": None, "nolist": [], "nodict": {}, "k": self.n_steps % 2}
+                cinfo = [["zero", {"i": 0}], ["blank", {"s": ""}], ["no", {"b": False}], ["nil", None], ["nolist", {"l": []}],
+                         ["nodict", {"d": []}], ["k", {"i": self.n_steps % 2}]]
             elif st == "preset":
                 junk = JUNK_BASE - self.env_id
                 wrong = not (trunc and not term)
